@@ -400,16 +400,38 @@ def rule_radix(E, R):
                                     ok = True
         R.check(ok, rule, fn, "octal escape parses 3 digits starting at the first digit", where=hq["span"])
     # separators
-    fs = "<rhs_types::bytes::ByteSeparator as lex::Lex>::lex"
+    # the separator between hex pairs: the one-character test that the byte-string lexer (or the function it calls for
+    # it: a Lex impl of a separator type, a private helper) applies - found as the match on a &str with literal arms
+    fs = "rhs_types::bytes::lex_byte_string"
     hs = E.hir(fs)
     if hs:
-        seps = set()
-        for m in find_matches(hs["body"], r"^&str$"):
-            for a in m["arms"]:
-                p = a["pat"]
-                if p.get("k") == "PExpr" and p["e"].get("k") == "PELit":
-                    seps.add(p["e"]["lit"]["v"])
-        R.check(seps == {":", "-", "."}, rule, fs, "hex-pair separators are exactly : - .", "extracted %s" % sorted(seps), hs["span"])
+        cands = [hs]
+        for c in exprs(hs["body"], ("Call", "MethodCall")):
+            for key in ("resolved_dp", "callee_dp"):
+                hb_ = E.hir_by_dp.get(c.get(key)) if c.get(key) else None
+                if hb_ is not None and "body" in hb_ and norm(hb_["path"]).split("::")[:2] == ["rhs_types", "bytes"] or \
+                        (hb_ is not None and "body" in hb_ and "rhs_types::bytes::" in norm(hb_["path"])):
+                    if all(hb_ is not x for x in cands):
+                        cands.append(hb_)
+                    break
+        tables = []
+        for hb_ in cands:
+            for m in find_matches(hb_["body"], r"^&str$"):
+                seps = set()
+                for a in m["arms"]:
+                    if sem.ctor_head(tail(a["body"])) == "Result::Err" or sem.diverges(a["body"]):
+                        continue
+                    for alt in sem.pat_alts(a["pat"]):
+                        for c_ in alt:
+                            if isinstance(c_, str) and c_.startswith("lit:"):
+                                seps.add(c_)
+                            elif c_ == "_":
+                                seps.add("<anything>")
+                if seps:
+                    tables.append((norm(hb_["path"]), seps))
+        want = {"lit:':'", "lit:'-'", "lit:'.'"}
+        R.check(len(tables) == 1 and tables[0][1] == want, rule, fs, "hex-pair separators are exactly : - .",
+                "extracted %s" % [(p_, sorted(t_)) for p_, t_ in tables], hs["span"])
     else:
         R.cannot(rule, fs, "anchor not found")
 
